@@ -225,7 +225,7 @@ def norm_expr(e):
             e = dict(e)
             e["op"] = ">>"
             sh = rv.bit_length() - 1
-            e["r"] = dict(_strip(e["r"]), v=sh, lit=str(sh))
+            e["r"] = dict(_strip(e["r"]), k="Int", v=sh, lit=str(sh))
     if k == "Bin" and e.get("op") in ("<<", ">>", "*", "+", "|", "&", "^") and not _is_float(e) and not _is_float(_strip(e.get("l"))) and not _is_float(_strip(e.get("r"))):
         lv, rv = _lit(e["l"]), _lit(e["r"])
         op = e["op"]
@@ -240,7 +240,7 @@ def norm_expr(e):
             e = dict(e)
             e["op"] = "<<"
             sh = rv.bit_length() - 1
-            e["r"] = dict(_strip(e["r"]), v=sh, lit=str(sh))
+            e["r"] = dict(_strip(e["r"]), k="Int", v=sh, lit=str(sh))
     if k == "Bin" and e.get("op") in FLIP:
         e = _zero_cmp(e)
         if e.get("k") != "Bin" or e.get("op") not in FLIP:
